@@ -1080,7 +1080,7 @@ static int parse(parser_t *parser,
 	     */
 	    assert(scanner->scn_token == T_ID);
 	    if ((exp = malloc(sizeof(expr_t))) == NULL) {
-		goto error;
+		goto nomem;
 	    }
 	    (void)memset((void *)exp, 0, sizeof(expr_t));
 	    exp->ex_type = E_MAP_ELEMENT;
@@ -1103,7 +1103,7 @@ static int parse(parser_t *parser,
 	     */
 	    assert(scanner->scn_token == T_INT);
 	    if ((exp = malloc(sizeof(expr_t))) == NULL) {
-		goto error;
+		goto nomem;
 	    }
 	    (void)memset((void *)exp, 0, sizeof(expr_t));
 	    exp->ex_type = E_LIST_ELEMENT;
@@ -1129,7 +1129,7 @@ static int parse(parser_t *parser,
 	     */
 	    assert(scanner->scn_token == T_PLUS);
 	    if ((exp = malloc(sizeof(expr_t))) == NULL) {
-		goto error;
+		goto nomem;
 	    }
 	    (void)memset((void *)exp, 0, sizeof(expr_t));
 	    exp->ex_type = E_LIST_APPEND;
@@ -1149,7 +1149,7 @@ static int parse(parser_t *parser,
 	     * final_dot	: λ ;
 	     */
 	    if ((exp = malloc(sizeof(expr_t))) == NULL) {
-		goto error;
+		goto nomem;
 	    }
 	    (void)memset((void *)exp, 0, sizeof(expr_t));
 	    exp->ex_type = E_DOT;
@@ -1169,7 +1169,7 @@ static int parse(parser_t *parser,
 	    }
 	    scan(scanner);
 	    if ((exp = malloc(sizeof(expr_t))) == NULL) {
-		goto error;
+		goto nomem;
 	    }
 	    (void)memset((void *)exp, 0, sizeof(expr_t));
 	    exp->ex_type = E_MAP;
@@ -1185,7 +1185,7 @@ static int parse(parser_t *parser,
 	    assert(scanner->scn_token == T_RBRACKET);
 	    scan(scanner);
 	    if ((exp = malloc(sizeof(expr_t))) == NULL) {
-		goto error;
+		goto nomem;
 	    }
 	    (void)memset((void *)exp, 0, sizeof(expr_t));
 	    exp->ex_type = E_LIST;
@@ -1202,6 +1202,11 @@ static int parse(parser_t *parser,
 error:
     parser_free(parser);
     errno = EINVAL;
+    return -1;
+
+nomem:
+    parser_free(parser);
+    errno = ENOMEM;
     return -1;
 }
 
